@@ -63,8 +63,10 @@ def injection_walks(da, rng: random.Random, tier_: str) -> list[dict[str, Any]]:
     da.clock.set(NOW)
     for usage, (opt, tmpl) in USAGE.items():
         for errs in ERRLISTS:
-            for f in (-1, 1, 2):
+            for f in (-1, 0, 1, 2):         # failures absent, zero times (the boundary), once, twice
                 if tier_ == 'quick' and usage in ('audio', 'text') and rng.random() < 0.6:
+                    continue
+                if f == 0 and tier_ == 'quick' and len(errs) != 1:
                     continue
                 tid += 1
                 clients = {'a': da.client(), 'b': da.client()}
@@ -206,6 +208,7 @@ def robustness_grid(da, rng: random.Random, tier_: str, out: Outcome) -> list[di
     fixed = [(cls, '', 'plain') for cls in route_classes]
     fixed += [('manifest-live', 'drm', 'all-noenc'), ('tears-manifest', 'drm', 'all-noenc'), ('tears-media', 'drm', 'all-noenc'),
               ('manifest-live', 'drm', 'all-badloc'), ('media-enc', 'drm', 'all-badloc'), ('init-enc', 'drm', 'all-badloc'), ('mps-manifest', 'drm', 'all-badloc'),
+              ('mps-manifest', 'depth', 'int_max'),
               ('manifest-live', 'mup', 'zero-patch'), ('media-num', 'ping__interval', 'zero'), ('media-num', 'scte35__interval', 'zero'),
               ('media-vod', 'ping__count', 'huge'), ('manifest-live', 'ping__timescale', 'zero'), ('media-vod', 'ping__interval', 'zero'),
               ('media-vod', 'ping__interval', 'negative'), ('manifest-vod', 'ping__interval', 'zero')]
@@ -530,7 +533,7 @@ def main(tier_: str) -> int:
             'exhaustive': False, 'model_drift': drift, 'injection_requests': ninj, 'probes': len(probes),
             'status_histogram': {str(k): sum(1 for x in probes if x['status'] == k) for k in sorted({x['status'] for x in probes})},
             'samples': [lines[1], probes[len(probes) // 2], probes[-1]],
-            'bounds': f'tier {tier_}; injection: 4 usages x 8 specifications x failure count absent/1/2, two clients; grid: 26 route/stream '
+            'bounds': f'tier {tier_}; injection: 4 usages x 8 specifications x failure count absent/0/1/2, two clients; grid: 26 route/stream '
                       f'classes x {out.coverage.get("registered_options")} option names x {len(VALUE_CLASSES)} value classes (pairwise-reduced in quick); '
                       'MP4: truncations at box boundaries +-1, size field edits, bit flips, size-0 last box; size edits of every nested box and dense truncations of 4 files through the parser (lazy + eager, every box touched)',
         })
